@@ -322,6 +322,77 @@ def rule_ols(ctx):
     return res.finish(4)
 
 
+def rule_sweep(ctx):
+    """Every sweep visits every feature with a non-zero column; and the residual is only ever changed by the rank-one
+    corrections of a single feature - a term built from the whole design matrix and the whole coefficient array is a
+    rebuild and has to start from the targets, not from the current residual."""
+    from . import rowindex
+    from .layout import with_parents
+    res = RuleResult("R-C11-sweep", "the coordinate sweeps run over all features (a filtered list, never a prefix / strided / truncated one), and a whole-matrix term is added to the residual only after the residual was reset to the targets")
+    F = ctx.facts()
+    CUT = {"take_while", "skip_while", "take", "skip", "step_by", "map_while", "nth"}
+    n = 0
+    for name in ("coordinate_descent", "block_coordinate_descent"):
+        for fn in fns_of(F, "linfa_elasticnet", name):
+            c = fn["crate"]
+            r = Render(c)
+            key = fn_key(fn)
+            inits = {}
+            for y in walk(fn["body"]):
+                if y.get("k") == "LetStmt" and y.get("init") is not None and y["pat"].get("k") == "Bind":
+                    inits[y["pat"]["local"]] = y["init"]
+            from .c17 import for_loops
+            ps = [b for p_ in fn["params"] for b in pat_bindings(p_)]
+            x_loc = ps[0]["local"]
+            for it, pat, body, node in for_loops(fn["body"]):
+                touches_r = any((y.get("k") == "MethodCall" and y["name"] == "scaled_add" and peel_refs(y["recv"]).get("name") == "r") or
+                                (y.get("k") == "Call" and strip(y["f"]).get("k") == "Path" and (c.dfn(strip(y["f"]).get("def")) or {}).get("name") == "general_mat_mul") for y in walk(body))
+                if not touches_r:
+                    continue
+                n += 1
+                res.instance("%s : feature sweep over `%s`" % (key, r.e(it)[:50]))
+                chain = rowindex._chain(it, inits)
+                cut = [x for x in chain if x in CUT]
+                if cut:
+                    res.violate("%s : feature-sweep-truncated:%s" % (key, cut[0]), "the features to visit are selected with `%s`: that keeps a prefix (or a stride) of the features, not all of those with a non-zero column - every feature behind the cut keeps a zero coefficient" % cut[0], fn_loc(fn, node.get("ln")))
+                else:
+                    res.ok()
+            # whole-matrix terms
+            for y, anc in with_parents(fn["body"]):
+                if y.get("k") != "Call" or strip(y["f"]).get("k") != "Path" or (c.dfn(strip(y["f"]).get("def")) or {}).get("name") != "general_mat_mul" or len(y["args"]) != 5:
+                    continue
+                if peel_refs(y["args"][4]).get("name") != "r":
+                    continue
+
+                def whole(e, want):
+                    e = peel_refs(e)
+                    while e.get("k") == "MethodCall" and e["name"] in ("view", "t", "reversed_axes", "to_owned"):
+                        e = peel_refs(e["recv"])
+                    return e.get("k") == "Path" and (e.get("local") == want if isinstance(want, int) else e.get("name") == want)
+                if not (whole(y["args"][1], x_loc) and whole(y["args"][2], "w")):
+                    continue
+                n += 1
+                res.instance("%s : whole-matrix term at line %s" % (key, y.get("ln")))
+                beta = peel_refs(y["args"][3])
+                beta_zero = (beta.get("k") == "Call" and (c.dfn(strip(beta["f"]).get("def")) or {}).get("name") == "zero") or (beta.get("k") == "Lit" and str(beta.get("v")).strip("0.f3264_") == "")
+                blk = next((a for a in reversed(anc) if a.get("k") == "Block"), None)
+                reset = False
+                if blk is not None:
+                    for st in blk["stmts"]:
+                        if any(z is y for z in walk(st)):
+                            break
+                        s0 = strip(st)
+                        if (s0.get("k") == "MethodCall" and s0["name"] in ("assign", "fill") and peel_refs(s0["recv"]).get("name") == "r") or (s0.get("k") == "Assign" and peel_refs(s0["l"]).get("name") == "r"):
+                            reset = True
+                if beta_zero or reset:
+                    res.ok()
+                else:
+                    res.violate("%s : residual-rebuilt-by-accumulation" % key, "`%s` adds -X*W to the *current* residual (beta = 1) without resetting it to the targets first: the result is Y - 2XW, not Y - XW" % r.e(y)[:60], fn_loc(fn, y.get("ln")))
+    if n < 2:
+        res.missing_anchor("feature sweeps of the coordinate descents (found %d)" % n)
+    return res.finish(2)
+
+
 def rule_filtered(ctx):
     from . import rowindex
     res = RuleResult("R-C11-filtered", "no filtered list of column positions is zipped with an unfiltered walk over the columns (the k-th surviving position is not column k)")
@@ -346,9 +417,11 @@ def rule_filtered(ctx):
 
 
 def rules(tier):
-    from . import carry, precision, layout, c04, zeroskip
+    from . import carry, precision, layout, c04, zeroskip, axisrole
     return [zeroskip.make_rule("R-C11-zeroskip", lambda f: f["d"]["krate"] == "linfa_elasticnet" and f["d"]["name"] in ("coordinate_descent", "block_coordinate_descent"), ("r",), 4, "the residual in the coordinate descents"),
             zeroskip.make_exact_rule("R-C11-scale", lambda f: f["d"]["krate"] == "linfa_elasticnet" and f["d"]["name"] in ("coordinate_descent", "block_coordinate_descent"), ("r",), 6, "the residual"),
+            rule_sweep, axisrole.make_rule("R-C11-axes", "linfa_elasticnet", {"duality_gap_mtl": {"x": ("samples", "features"), "y": ("samples", "tasks"), "w": ("features", "tasks"), "r": ("samples", "tasks")},
+                                                                               "duality_gap": {"x": ("samples", "features"), "y": ("samples",), "w": ("features",), "r": ("samples",)}}, 2, "the duality gaps of linfa-elasticnet"),
             rule_filtered, carry.make_default_rule("R-C11-default", {"linfa_elasticnet", "linfa_linear"}, 1),
             rule_intercept, rule_zero_terms, rule_stop, rule_ols,
             carry.make_clone_rule("R-C11-clone", {"linfa_elasticnet", "linfa_linear"}, 6), carry.make_setter_rule("R-C11-override", {"linfa_elasticnet", "linfa_linear"}, 4),
